@@ -84,7 +84,11 @@ func c02Cases(tier string, seed uint64) []fw.Case {
 			shapes = []string{"ind", "short", "forkend"}
 		}
 		for _, shape := range shapes {
-			for _, mode := range []string{"all", "each"} {
+			modes := []string{"all", "each"}
+			if starts >= 2 {
+				modes = append(modes, "pair")
+			}
+			for _, mode := range modes {
 				for _, w := range []int{1, 2, 4} {
 					for _, at := range []string{"before", "mid", "after"} {
 						for _, h := range []string{"plain", "expired1", "expired2"} {
@@ -364,6 +368,47 @@ func c02Run1(c *c02Case, env *fw.Env, v *fw.V) {
 		for i := range starts {
 			se := &starts[i]
 			sid, _ := se.Id()
+			if c.Mode == "pair" && i == 1 {
+				continue // fired together with the first one
+			}
+			if c.Mode == "pair" && i == 0 && len(starts) >= 2 {
+				// the first two start events are triggered at the same time from two goroutines (their first
+				// traces interleave); the remaining ones follow one by one once these chains have ended
+				se2 := &starts[1]
+				sid2, _ := se2.Id()
+				barrier := make(chan struct{})
+				c1 := in.Go("StartWith", func() error { <-barrier; return in.Proc.StartWith(in.Ctx, schema.FlowNodeInterface(se)) })
+				c2 := in.Go("StartWith", func() error { <-barrier; return in.Proc.StartWith(in.Ctx, schema.FlowNodeInterface(se2)) })
+				close(barrier)
+				m.StartOne(*sid)
+				m.StartOne(*sid2)
+				if !r.quiesce("after StartWith " + *sid + " and " + *sid2 + " at the same time") {
+					fail()
+					return
+				}
+				for _, call := range []*drive.Call{c1, c2} {
+					if d, err := call.Done(); !d || err != nil {
+						v.Violate("caller-blocked", "Process).StartWith", "concurrent StartWith did not return: %v", err)
+						fail()
+						return
+					}
+				}
+				if !mid() {
+					fail()
+					return
+				}
+				if c.Shape != "join" {
+					for _, t := range []string{"a1", "a2"} {
+						if m.Pending[t] > 0 && len(starts) > 2 {
+							if !answer(t) {
+								fail()
+								return
+							}
+						}
+					}
+				}
+				continue
+			}
 			call := in.Go("StartWith", func() error { return in.Proc.StartWith(in.Ctx, schema.FlowNodeInterface(se)) })
 			m.StartOne(*sid)
 			if !r.quiesce("after StartWith " + *sid) {
@@ -462,7 +507,7 @@ func init() {
 			v.Nontrivial = true
 			return v
 		},
-		Rule:       "full grid: 1..3 start events x {independent chains, chains merging in a parallel join, one chain without task} x {StartAll, StartWith one by one with the earlier chain run to its end} x {1,2,4 concurrent waiters} x {attached before start, mid-run, after completion} x {plain, one / two already-expired waits first} x start-up hook delay probability {0,0.5,1}; waiters and cease-flow trace checked against the reference at every quiescent point; cancelled instances (the instance's own context cancelled while task requests are unanswered, at rest or mid-run, with waiters attached before, after an expired wait and after the cancellation): no waiter may return true, none stays blocked, no cease-flow trace; every cell is non-trivial (has waiters and >=1 quiescent comparison); distinct = descriptor hash",
+		Rule:       "full grid: 1..3 start events x {independent chains, chains merging in a parallel join, one chain without task} x {StartAll, StartWith one by one with the earlier chain run to its end, the first two start events triggered at the same time from two goroutines and the rest one by one} x {1,2,4 concurrent waiters} x {attached before start, mid-run, after completion} x {plain, one / two already-expired waits first} x start-up hook delay probability {0,0.5,1}; waiters and cease-flow trace checked against the reference at every quiescent point; cancelled instances (the instance's own context cancelled while task requests are unanswered, at rest or mid-run, with waiters attached before, after an expired wait and after the cancellation): no waiter may return true, none stays blocked, no cease-flow trace; every cell is non-trivial (has waiters and >=1 quiescent comparison); distinct = descriptor hash",
 		Exhaustive: func(string) bool { return true },
 		Assumptions: []string{"'within bounded time' is restated as 'by the next quiescent point'", "context given to WithContext and StartAll/StartWith is the same"},
 	})
